@@ -10,7 +10,7 @@ from harness import lr_tables as L
 
 META = {
     "technique": "Coq proof that a first-order LR table validator (check_sound) is sound for the model of Parser.parse, for all tables; the validator applied (extracted OCaml; inside Coq for a sample / all in thorough) to the tables lr1.py builds for the Emboss module and expression grammars and for N random small CFGs per run; differential correspondence Parser.parse vs model on all strings up to length 6 (small grammars) and derived sentences + mutations (Emboss), cross-checked with an independent Earley recogniser, ambiguity counter and derivation checker",
-    "level_text": "Machine-checked theorems (Coq 8.16, no axioms), for ALL tables, certificates, grammars, token lists and fuel: if check_sound G T C = true and run T accepts, the returned tree is a derivation tree of the start symbol of G whose leaves are the input tokens in order (run_sound, run_sound_gen); an error at index i depends only on tokens 0..i (run_prefix_det). If check_complete G T I F = true (LR(1) item sets and FIRST sets as untrusted certificate) every derivation tree of the start symbol is returned given enough fuel (run_complete), an error at index i implies that no sentence starts with tokens 0..i (error_not_late), and on a sentence run returns its tree or runs out of fuel (sentence_result). The generator is covered per instance: each run rebuilds the Emboss parsers and N random small grammars' parsers with the working tree's lr1.py and decides check_sound and check_complete on their tables and item sets. 'No token is shifted unless a sentence continues' and 'ambiguous grammars are reported' are tested on every string up to length 6 (small grammars) and on sampled Emboss sentences against an independent Earley recogniser.",
+    "level_text": "Machine-checked theorems (Coq 8.16, no axioms), for ALL tables, certificates, grammars, token lists and fuel: if check_sound G T C = true and run T accepts, the returned tree is a derivation tree of the start symbol of G whose leaves are the input tokens in order (run_sound, run_sound_gen); an error at index i depends only on tokens 0..i (run_prefix_det). If check_complete G T I F = true (LR(1) item sets and FIRST sets as untrusted certificate) every derivation tree of the start symbol is returned given enough fuel (run_complete), an error at index i implies that no sentence starts with tokens 0..i (error_not_late), and on a sentence run returns its tree or runs out of fuel (sentence_result), and G is unambiguous (unambiguous). The generator is covered per instance: each run rebuilds the Emboss parsers and N random small grammars' parsers with the working tree's lr1.py and decides check_sound and check_complete on their tables and item sets. 'No token is shifted unless a sentence continues' and 'ambiguous grammars are reported' are tested on every string up to length 6 (small grammars) and on sampled Emboss sentences against an independent Earley recogniser.",
     "level_note": "sound and complete per validated instance (run_sound, run_complete, error_not_late proved for all tables passing the checkers; the checkers pass on the Emboss grammars and on every conflict-free random grammar of the run); error_not_early unproved (false for grammars with unproductive nonterminals; Earley-tested otherwise); the generator itself is covered by translation validation of its output, not by a proof about lr1.py. Trusted: Coq kernel + vm_compute; extraction + OCaml for instance checks in quick (a sample is re-evaluated inside Coq and compared; thorough re-evaluates all small-grammar instances inside Coq); harness/lr_tables.py translator (certificates it computes are untrusted inputs of the verified checker); the Python Earley recogniser is support/search only. Modelled, not verified: lr1.py itself.",
 }
 
@@ -132,7 +132,19 @@ def judge_small_grammar(ctx, bench, sg):
         if sg.conflicts:
             continue
         if any(x not in sg.terms for x in w):
-            continue        # out-of-alphabet probes: driver correspondence only
+            # out-of-alphabet probes: driver correspondence, plus: nothing containing them is a sentence
+            if py[1] == 1 and lr1.END_OF_INPUT in w:
+                # '$' is lr1's reserved end-of-input marker, not a terminal of any grammar: token strings
+                # containing it are outside the property's quantifier (hypothesis ~In eoi toks of run_sound);
+                # the behaviour (input truncated at '$') is counted, not reported (decision of the lead)
+                ctx.count("out-of-domain:end-marker-token-accepted")
+            elif py[1] == 1:
+                spec_failure = True
+                key = "lr1-parser-accepts-nonsentence"
+                ctx.violation(key, "conflict-free parser accepts %r although %r is not a terminal of the grammar"
+                              % (w, [x for x in w if x not in sg.terms]),
+                              dict(kind="grammar+tokens", tokens=w, **gram), found_input=True)
+            continue
         # ---- the specification side: independent Earley recogniser -------------------
         in_lang = E.accepts(w)
         if py[1] in (3, 4):
@@ -244,6 +256,8 @@ def judge_emboss(ctx, bench, name, entries, cp, prods, start):
             ctx.violation("driver-correspondence", "model `run` and Parser.parse disagree (%s grammar)" % name,
                           dict(kind="tokens", parser=name, tokens=w, correspondence="LR.Driver.run vs lr1.Parser.parse",
                                python_raw=py[:80], model_raw=(e["model"] or [])[:80]), found_input=False)
+        if py[1] == 1 and "$" in w:
+            ctx.count("out-of-domain:end-marker-token-accepted")   # see above: '$' is not a terminal
         if e["earley"] is None:
             continue
         ctx.count("%s:earley-compared" % name)
@@ -292,8 +306,8 @@ def run(ctx):
         timing[name] = round(time.time() - T0, 1)
         T0 = time.time()
 
-    ctx.audit()
-    ctx.check_theorems("EmbossV.LR.Properties_C08", "LR/Properties_C08.v", expect_min=8)
+    ctx.audit(extra_files=[os.path.join(fw.VERIF, "extract", "lr", "Extract.v")])
+    ctx.check_theorems("EmbossV.LR.Properties_C08", "LR/Properties_C08.v", expect_min=9)
     lap("coq build + assumptions")
 
     driver = L.build_driver(ctx)
